@@ -541,6 +541,169 @@ def run_tree_history(ctx, n):
                    {"why": "identifier of a tree updated in place is not the canonical identifier of its entries", "got": t.hash_info.value})
 
 
+def _listing_view(raw, hash_name="md5"):
+    """what the bytes of a directory object say, read independently of where they came from: the entries, the identifier of
+    those entries (parsed, serialised again without metadata, hashed), and the md5 of the bytes as they are; a listing written
+    with metadata names no hash field of its own, it is parsed by saying which field is the hash (hash_name) - which reads a
+    listing written without metadata just as well"""
+    from dvc_data.hashfile.tree import Tree
+
+    parsed = Tree.from_list(json.loads(raw), hash_name=hash_name)
+    again = Tree.from_list(parsed.as_list())
+    again.digest()
+    return {"tree": canon_impl_tree(parsed), "oid": again.oid, "raw": md5hex(raw) + ".dir"}
+
+
+def run_referenced_history(ctx, n):
+    """one Tree object digested again and again while it keeps being amended (entries added, entries re-added with a new hash,
+    digest with/without metadata); after each digest the object just produced is handed out the ways the library itself hands it
+    out - the (path, fs, identifier) handle kept by a caller, a by-reference staging store (add_update_tree / build()'s staging),
+    or copied into an object store at once.  An identifier names ONE listing for good: whenever later, and whatever happened to
+    the Tree object since, every object obtained under an earlier identifier X (handle bytes, Tree.load from staging, the copy
+    made by a late add() or transfer() into a real store) must still be the listing X was computed from"""
+    from dvc_objects.fs import MemoryFileSystem
+    from dvc_objects.fs.local import LocalFileSystem
+
+    from dvc_data.hashfile.build import build
+    from dvc_data.hashfile.db import add_update_tree
+    from dvc_data.hashfile.db.local import LocalHashFileDB
+    from dvc_data.hashfile.db.reference import ReferenceHashFileDB
+    from dvc_data.hashfile.hash_info import HashInfo
+    from dvc_data.hashfile.meta import Meta
+    from dvc_data.hashfile.transfer import transfer
+    from dvc_data.hashfile.tree import Tree
+
+    rng = ctx.rng
+    fs = LocalFileSystem()
+    for _ in range(n):
+        root = ctx.mkdtemp()
+        opening = rng.choice(["entries", "entries", "build"])
+        files = gen.rand_tree(rng, max_files=5, allow_odd=(opening == "entries"))
+        cur = {k: md5hex(c) for k, c in files.items()}
+        early = LocalHashFileDB(fs, os.path.join(root, "early"))  # copies made at once
+        late = LocalHashFileDB(fs, os.path.join(root, "late"))  # copies made at the end of the history
+        staging = ReferenceHashFileDB(MemoryFileSystem(), "memory://c03-referenced-%032x" % rng.getrandbits(128), hash_name="md5")
+        snaps = []  # one per digest: identifier, the entries it was computed from, how the object was handed out
+        ops = []
+        bad = []
+
+        def snapshot(tree, how, with_meta, store=None):
+            snaps.append({"oid": tree.oid, "entries": dict(cur), "how": how, "with_meta": with_meta,
+                          "handle": (tree.path, tree.fs), "store": store, "via": how})
+
+        def audit(when):
+            """every identifier handed out so far still names its own listing, wherever it can be read without writing"""
+            # one identifier may have been handed out both with and without metadata (same entries): a store keeps either form
+            plain = {s["oid"] for s in snaps} - {s["oid"] for s in snaps if s["with_meta"]}
+            for i, s in enumerate(snaps):
+                exp = {"tree": {"/".join(k): ["md5", v] for k, v in sorted(s["entries"].items())}, "oid": gen.canonical_oid(s["entries"])}
+                if s["oid"] != exp["oid"]:
+                    bad.append({"why": "identifier is not the canonical identifier of the entries it was computed from", "digest#": i,
+                                "got": s["oid"], "expected": exp["oid"], "when": when})
+                reads = []
+                path, hfs = s["handle"]
+                reads.append(("handle", not s["with_meta"], lambda: hfs.cat_file(path)))
+                if s["store"] is not None:
+                    def from_store(s=s):
+                        o = s["store"].get(s["oid"])
+                        return o.fs.cat_file(o.path)
+                    reads.append((s["via"], s["oid"] in plain, from_store))
+                for label, exact, rd in reads:
+                    k, v = safe_call(lambda: _listing_view(rd()))
+                    ok = k == "ok" and v["tree"] == exp["tree"] and v["oid"] == s["oid"] and (not exact or v["raw"] == s["oid"])
+                    if not ok:
+                        bad.append({"why": "the object handed out under an identifier is no longer the listing that identifier was computed from",
+                                    "digest#": i, "identifier": s["oid"], "read_via": label, "when": when,
+                                    "listing_then": sorted(exp["tree"]), "object_now": v if k != "ok" else
+                                    {"listing": sorted(v["tree"]), "identifier_of_listing": v["oid"], "md5_of_bytes": v["raw"]}})
+                if s["store"] is not None:
+                    k, v = safe_call(lambda: canon_impl_tree(Tree.load(s["store"], HashInfo("md5", s["oid"]), hash_name="md5")))
+                    if k != "ok" or v != exp["tree"]:
+                        bad.append({"why": "Tree.load under an identifier does not give the listing that identifier was computed from",
+                                    "digest#": i, "identifier": s["oid"], "store": s["via"], "when": when,
+                                    "listing_then": sorted(exp["tree"]), "loaded": v if k != "ok" else sorted(v)})
+
+        def history():
+            if opening == "build":
+                ws = os.path.join(root, "ws")
+                gen.materialize(ws, files, rng)
+                bstaging, _meta, t = build(late, ws, fs, "md5")
+                snapshot(t, "build-staging", False, bstaging)
+                ops.append(["build"])
+                stage = bstaging  # later digests are staged where build() staged the first one
+            else:
+                t, stage = Tree(), staging
+                for k in rng.sample(sorted(cur), len(cur)):
+                    t.add(k, Meta(size=len(files[k])), HashInfo("md5", cur[k]))
+            for step in range(rng.randrange(2, 6)):
+                r = rng.random()
+                if not (opening == "entries" and step == 0):
+                    if r < 0.55:
+                        k = (*rng.choice(sorted({kk[:-1] for kk in cur})), "added-%d" % step)
+                        c = b"added-%d" % rng.randrange(10**6)
+                        if opening == "build":
+                            # the file shows up in the directory too (existing files are left alone: the earlier listings stay usable)
+                            gen.materialize(ws, {k: c})
+                        cur[k] = md5hex(c)
+                        t.add(k, Meta(size=len(c)), HashInfo("md5", cur[k]))
+                        ops.append(["add", list(k)])
+                    elif r < 0.85 and opening == "entries":
+                        k = rng.choice(sorted(cur))
+                        cur[k] = md5hex(b"new-%d" % rng.randrange(10**6))
+                        t.add(k, Meta(size=5), HashInfo("md5", cur[k]))
+                        ops.append(["re-add", list(k)])
+                    else:
+                        ops.append(["unchanged"])
+                # with metadata only in the in-memory opening: a listing staged with metadata cannot be read back without naming the
+                # hash field, which transfer() does not do (build() itself never stages one)
+                wm = opening == "entries" and rng.random() < 0.3
+                t.digest(with_meta=wm)
+                how = rng.choice(["handle", "staging", "staging", "store-now"])
+                ops.append(["digest", {"with_meta": wm, "handed_out": how}])
+                if how == "handle":
+                    snapshot(t, how, wm)
+                elif how == "staging":
+                    snapshot(t, how, wm)
+                    add_update_tree(stage, t)
+                    snaps[-1]["store"] = stage
+                else:
+                    snapshot(t, how, wm)
+                    add_update_tree(early, t)
+                    snaps[-1]["store"] = early
+                audit("after digest #%d" % (len(snaps) - 1))
+            # the end of the history: the objects handed out by reference are finally copied into a real store
+            for i, s in enumerate(snaps):
+                if s["how"] == "store-now":
+                    continue
+                if s["how"] == "build-staging":
+                    res = transfer(s["store"], late, {HashInfo("md5", s["oid"])}, shallow=False)
+                    if res.failed:
+                        bad.append({"why": "transfer of a staged directory failed", "digest#": i, "failed": sorted(h.value for h in res.failed)})
+                        continue
+                else:
+                    path, hfs = s["handle"]
+                    late.add(path, hfs, s["oid"])
+                snaps[i] = dict(s, via="late %s of the object handed out by %s" % ("transfer" if s["how"] == "build-staging" else "add", s["how"]),
+                                store=late)
+            audit("after the late copies")
+            if opening == "build":
+                _, _, again = build(late, ws, fs, "md5")
+                if again.oid != t.oid or t.oid != gen.canonical_oid(cur):
+                    bad.append({"why": "amended tree and a fresh build of the directory disagree", "amended": t.oid, "fresh": again.oid})
+
+        k, v = safe_call(history)
+        case = {"referenced_history": {"opening": opening, "files": {"/".join(kk): md5hex(c) for kk, c in files.items()}, "ops": ops}}
+        ctx.case(case, nontrivial=sum(1 for o in ops if o[0] in ("add", "re-add")) >= 1 and len(snaps) >= 2)
+        ctx.count("referenced_history:opening=%s" % opening)
+        ctx.count("referenced_history:digests=%d" % len(snaps))
+        for s in snaps:
+            ctx.count("referenced_history:handed_out=%s" % s["how"])
+        if k != "ok" and not bad:
+            ctx.oracle(False, case, {"why": "history raised", "impl": v})
+            continue
+        ctx.oracle(not bad, case, bad[0] if bad else None)
+
+
 def run_path(ctx, n):
     rng = ctx.rng
     keys = []
@@ -563,6 +726,10 @@ def run(ctx):
         "real directories staged under each file-hash flavour {md5-dos2unix, md5, sha256} x 0-3 files over 1 MiB at one directory level "
         "(CRLF text / LF text / binary holding CRLF) x jobs x state none/cold/warm, every entry compared with an independent per-file "
         "digest, and that level re-hashed under jobs {1,2,8}, large-file thresholds {1 KiB, 1 MiB, 1 TiB} and with a large file on its own; "
+        "one Tree object (entries added in memory, or build() of a real directory) digested 2-6 times with/without metadata while it is amended "
+        "(entries added, re-added with a new hash, left unchanged), each digest handed out as a (path, fs) handle / to a by-reference staging "
+        "store (add_update_tree, build()'s staging) / copied into a store at once, every earlier identifier re-read after every later digest and "
+        "after a late add()/transfer() into a real store: its object is still the listing it was computed from; "
         "non-trivial = >= 2 entries; distinct = sha256 of the canonical case"
     )
     ctx.assumptions = [
@@ -577,6 +744,7 @@ def run(ctx):
     run_build(ctx, ctx.n(60, 500))
     run_build_flavours(ctx, ctx.n(24, 144))
     run_tree_history(ctx, ctx.n(120, 1500))
+    run_referenced_history(ctx, ctx.n(100, 1000))
 
 
 def search(ctx):
@@ -585,6 +753,7 @@ def search(ctx):
     run_build(ctx, 400)
     run_build_flavours(ctx, 144)
     run_tree_history(ctx, 1500)
+    run_referenced_history(ctx, 1000)
 
 
 def replay(ctx, payload):
